@@ -50,7 +50,36 @@ def simple_source(doc, kind):
     raise ValueError(kind)
 
 
-def call(thunk, faults=None, norm=None, retain=None, graph=False, nested=None):
+def use_result(v, depth=0, seen=None):
+    """What a caller does with a loaded value: it owns it and changes it in place.  If a
+    later call hands out an object that an earlier call already returned, the change shows."""
+    if seen is None:
+        seen = set()
+    if depth > 6 or id(v) in seen:
+        return
+    seen.add(id(v))
+    if isinstance(v, list):
+        for x in list(v):
+            use_result(x, depth + 1, seen)
+        v.append('<used by the caller>')
+    elif isinstance(v, dict):
+        for x in list(v.values()):
+            use_result(x, depth + 1, seen)
+        v['<used by the caller>'] = True
+    elif getattr(type(v), '_sim_uid', None) is not None and hasattr(v, '__dict__') \
+            and not isinstance(v, (str, bytes)):
+        import enum
+        if isinstance(v, enum.Enum):
+            return
+        for x in list(vars(v).values()):
+            use_result(x, depth + 1, seen)
+        try:
+            v.used_by_the_caller = True
+        except Exception:
+            pass
+
+
+def call(thunk, faults=None, norm=None, retain=None, graph=False, nested=None, after=None):
     """Run thunk() inside a fresh OpContext; returns (outcome dict, ctx).
 
     outcome: {'status': 'ok', 'value': canon} | {'status': 'exc', 'exc': qualname,
@@ -67,6 +96,8 @@ def call(thunk, faults=None, norm=None, retain=None, graph=False, nested=None):
             v = thunk()
             # graph=True: also which sub-objects of the result are one and the same object
             out = {'status': 'ok', 'value': canon.canon_graph(v) if graph else canon.canon(v)}
+            if after is not None:
+                after(v)
         except Exception as e:
             name, toks = canon.canon_exc(e, norm)
             out = {'status': 'exc', 'exc': name, 'msg': toks,
